@@ -38,14 +38,14 @@ Definition show_outs (s : state) : list string :=
 Inductive cevent :=
 | CConnect (q : nat) (n : bytes) | CData (q : nat) (chunk : list seg) | CPeerClosed (q : nat) | CLost (q : nat)
 | CDoneRow (q : nat) (secret : bytes) (pub sub : list bytes) | CDoneNone (q : nat) | CDoneRaise (q : nat)
-| CPauseW (q : nat) | CResumeW (q : nat) | CTick (n : nat).
+| CPauseW (q : nat) | CResumeW (q : nat) | CResumePause (q : nat) | CTick (n : nat).
 Definition events_of (e : cevent) : list event :=
   match e with
   | CConnect q n => [Connect q n] | CData q ch => [Data q (expand ch)] | CPeerClosed q => [PeerClosed q]
   | CLost q => [Lost q]
   | CDoneRow q s p sb => [LookupDone q (RLook (LRow (mkrow s p sb)))]
   | CDoneNone q => [LookupDone q (RLook LNone)] | CDoneRaise q => [LookupDone q RRaise]
-  | CPauseW q => [PauseW q] | CResumeW q => [ResumeW q]
+  | CPauseW q => [PauseW q] | CResumeW q => [ResumeW q] | CResumePause q => [ResumeW q; PauseW q]
   | CTick n => repeat Tick n
   end.
 
